@@ -1,6 +1,7 @@
 package main
 
 import (
+	"sync/atomic"
 	"encoding/json"
 	"flag"
 	"fmt"
@@ -209,12 +210,22 @@ func runObligations(p *Program, sv *Solver, results []*FuncResult, prop string, 
 	}
 	var wg sync.WaitGroup
 	ch := make(chan *oblOutcome)
+	// GOVC_FAIL_FAST=1 (self-test of seeded changes only): stop after the first violation; the remaining obligations are skipped
+	failFast := os.Getenv("GOVC_FAIL_FAST") == "1"
+	var stop int32
 	for i := 0; i < workers; i++ {
 		wg.Add(1)
 		go func() {
 			defer wg.Done()
 			for oc := range ch {
+				if failFast && atomic.LoadInt32(&stop) == 1 {
+					oc.Status = "skipped"
+					continue
+				}
 				if len(oc.Func.Unsupported) > 0 && !oc.Obl.Cover {
+					if failFast {
+						atomic.StoreInt32(&stop, 1)
+					}
 					oc.Status = "out-of-reach"
 					oc.Res = SolveResult{Status: "unsupported", Output: strings.Join(oc.Func.Unsupported, "\n")}
 					continue
@@ -236,6 +247,9 @@ func runObligations(p *Program, sv *Solver, results []*FuncResult, prop string, 
 					oc.Status = "discharged"
 				default:
 					oc.Status = "failed"
+				}
+				if failFast && (oc.Status == "failed" || oc.Status == "vacuous") && !knownFailing[oc.Obl.Name] {
+					atomic.StoreInt32(&stop, 1)
 				}
 			}
 		}()
@@ -543,6 +557,9 @@ func checkProperty(p *Program, prop, tier string, timeoutS, workers int, start t
 		}
 	}
 	for _, oc := range outs {
+		if oc.Status == "skipped" {
+			continue
+		}
 		if oc.Obl.Cover {
 			nCover++
 			if oc.Status == "vacuous" {
